@@ -309,3 +309,92 @@ def qos_history(rng, prof):
                 g.ops.append(op("ackall", k=g.k(c)))
         g.ops.append(op("mark", kind="drained"))
     return g.ops
+
+
+def session_history(rng, prof):
+    """connect / reconnect / takeover / expiry / will histories (C13-C16)."""
+    g = Gen(rng, dict(prof, ack=False))
+    clients = prof.get("clients", ["c1", "c2", "c3"])
+    topics = prof.get("topics", [["a"], ["b"], ["w", "c1"], ["w", "c2"]])
+    # an observer that sees wills and stale deliveries
+    g.connect("obs", v=5, clean=True, sei=0)
+    g.ops.append(op("subscribe", k=g.k("obs"), pid=g.pid("x"), filters=[dict(f=["#"], qos=rng.choice([0, 1]), nl=False, rap=False, rh=2)]))
+    n = rng.randint(*prof.get("len", (14, 40)))
+    w = prof.get("weights", dict(connect=8, subscribe=4, publish=5, disconnect=3, netdrop=3, disc04=1, proto_err=1, tick_clients=3,
+                                 tick_wills=2, takeover=2, bad_connect=0, ackall=1, disc_sei=1))
+    names = list(w)
+    for _ in range(n):
+        a = rng.choices(names, [w[x] for x in names])[0]
+        c = rng.choice(clients)
+        k = g.k(c)
+        if a == "connect" or (a == "takeover" and not k):
+            if k:
+                continue
+            kw = {}
+            if prof.get("wills") and rng.random() < prof["wills"]:
+                kw["will"] = dict(t=["w", c], m=g.msg(), qos=rng.choice([0, 1]), retain=rng.random() < 0.2, delay=rng.choice(prof.get("will_delay", [0, 0, 20])))
+            g.connect(c, **kw)
+        elif a == "takeover":
+            kw = {}
+            if prof.get("wills") and rng.random() < prof["wills"]:
+                kw["will"] = dict(t=["w", c], m=g.msg(), qos=rng.choice([0, 1]), retain=False, delay=rng.choice(prof.get("will_delay", [0, 0, 20])))
+            g.connect(c, **kw)
+        elif a == "subscribe" and k:
+            g.ops.append(op("subscribe", k=k, pid=g.pid(k), filters=[dict(f=rng.choice([["a"], ["b"], ["a", "#"], ["+"]]), qos=rng.choice([0, 1, 2]), nl=False, rap=False, rh=0)]))
+        elif a == "publish":
+            p = rng.choice(clients + ["obs"])
+            if g.k(p):
+                q = rng.choice([0, 1])
+                o = op("publish", k=g.k(p), t=rng.choice(topics[:2]), m=g.msg(), qos=q)
+                if q:
+                    o["pid"] = g.pid(k) + 100
+                g.ops.append(o)
+        elif a == "disconnect" and k:
+            g.ops.append(op("disconnect", k=k, rc=0))
+            del g.conn[c]
+        elif a == "disc_sei" and k and g.ver[k] == 5:
+            g.ops.append(op("disconnect", k=k, rc=0, sei=rng.choice([0, 30, 100])))
+            del g.conn[c]
+        elif a == "disc04" and k and g.ver[k] == 5:
+            g.ops.append(op("disconnect", k=k, rc=4, short=rng.random() < 0.5))
+            del g.conn[c]
+        elif a == "netdrop" and k:
+            g.ops.append(op("netdrop", k=k))
+            del g.conn[c]
+        elif a == "proto_err" and k:
+            g.ops.append(op("raw", k=k, hex="f000"))     # reserved packet type 15 for v3/4, bad AUTH for v5: protocol error
+            del g.conn[c]
+        elif a == "tick_clients":
+            g.ops.append(op("tick", kind="clients", dt=rng.choice(prof.get("dts", [0, 10, 40, 120, 400]))))
+        elif a == "tick_wills":
+            g.ops.append(op("tick", kind="wills", dt=rng.choice(prof.get("wdts", [0, 10, 30, 60]))))
+        elif a == "ackall":
+            for d, kk in list(g.conn.items()):
+                g.ops.append(op("ackall", k=kk))
+        elif a == "bad_connect":
+            g.nk += 1
+            kk = "k%d" % g.nk
+            kind = rng.choice(["proto", "flags", "emptyid", "willqos", "version", "denied", "first_not_connect", "willflags", "pw_no_user", "ok_userpass"])
+            o = op("connect", k=kk, id=c + "x", v=rng.choice([4, 5]), clean=True)
+            if kind == "proto":
+                o["proto"] = rng.choice(["MQTX", "MQIsdp" if o["v"] != 3 else "MQTT"])
+            elif kind == "flags":
+                o["rawflags"] = rng.choice([3, 1, 0x0A, 0x22, 0x12])     # reserved bit; will qos / will retain without will flag
+            elif kind == "emptyid":
+                o.update(id="", v=4, clean=False)
+            elif kind == "willqos":
+                o["will"] = dict(t=["w", "x"], m=g.msg(), qos=2, retain=True, delay=0)
+            elif kind == "version":
+                o["v"] = 3
+            elif kind == "denied":
+                o["id"] = "denied"
+            elif kind == "first_not_connect":
+                o["hex"] = rng.choice(["c000", "30020000", "e000"])
+            elif kind == "pw_no_user":
+                o["pass"] = "pw"
+            elif kind == "ok_userpass":
+                o.update(user="u", **{"pass": "pw"})
+            elif kind == "willflags":
+                o["rawflags"] = 0x1A      # will qos 3 without will flag, clean
+            g.ops.append(o)
+    return g.ops
